@@ -17,7 +17,8 @@
 (*   Field), so Save(deletions) appends an EMPTY change set.  LogDeletes = TRUE is the repaired design.          *)
 (*   ReplayOverwrites = TRUE additionally lets a later change record win on replay (needed when a crash between  *)
 (*   C1 and C2 leaves a new snapshot next to the old log).                                                       *)
-(* Contract layer: ack (types carried by acknowledged writes, cleared by an acknowledged drop), touched (field  *)
+(* Contract layer: ack (types carried by acknowledged writes and types of the fields they created, also by a     *)
+(*   point that was then rejected -- they are saved with the batch; cleared by an acknowledged drop), touched (field *)
 (*   types created since the last acknowledged drop), stored = accepted points, dropped counts.                  *)
 (* Mode "input" (C40): the state is a case: pre-existing schema x key validation x batch, expected outcome.     *)
 EXTENDS Integers, Sequences, FiniteSets, TLC
@@ -29,6 +30,8 @@ CONSTANTS Mode,          \* "hist" | "input"
           MaxBatch,      \* points per batch
           LogDeletes,    \* FALSE: as the code is
           ReplayOverwrites, \* FALSE: as the code is (a contradicting AddField record aborts ApplyChanges); TRUE: later record wins
+          PointSetName,  \* hist: "all" = HistPoints; "phantom" = three points that exercise a field created by a rejected point
+          NoMaint,       \* hist: TRUE disables Drop and Close (directed generation configs)
           UseIds,        \* TRUE: every stored point carries the id of its write (generation); FALSE: ids 0 (checking)
           SchemaNames,   \* input: pre-existing schemas
           VKs            \* input: values of Config.ValidateKeys
@@ -54,6 +57,11 @@ IsEmptySchema(s) == \A m \in Meas, f \in Fields : s[m][f] = None
 STag(t1, t2) == IF t1 = "float" THEN (IF t2 = "float" THEN "ff" ELSE "fi") ELSE (IF t2 = "float" THEN "if" ELSE "ii")
 HistPoints == {Pt(m, t, "n", <<FT(f, t)>>) : m \in Meas, f \in Fields, t \in Types}
          \cup {Pt(m, STag(t1, t2), "n", <<FT("f1", t1), FT("f2", t2)>>) : m \in Meas, t1 \in Types, t2 \in Types}
+\* directed universe: P1 sets f2, P2 creates f1 and is then rejected on f2, P3 conflicts with the f1 that P2 left behind
+PhantomPoints == {Pt("m1", "float", "n", <<FT("f2", "float")>>),
+                  Pt("m1", "fi", "n", <<FT("f1", "float"), FT("f2", "int")>>),
+                  Pt("m1", "int", "n", <<FT("f1", "int")>>)}
+ThePoints == IF PointSetName = "phantom" THEN PhantomPoints ELSE HistPoints
 \* input mode: the point classes of validateSeriesAndFields / ValidateAndCreateFields
 C40Points == {
     Pt("m1", "a", "n", <<FT("f1", "float")>>),                       \* valid, or conflicting with an int f1
@@ -179,7 +187,12 @@ Eng(w) ==
     /\ up /\ wr[w].pc = "eng"
     /\ LET s == wr[w]
            st2 == stored \cup UNION {StoredOf(s.batch[s.acc[i]], s.id * 10 + s.acc[i]) : i \in 1..Len(s.acc)}
-           a2 == AckOf(ack, s.batch, s.acc)
+           \* types carried by the accepted points, and the fields this write created in memory: they were appended to the
+           \* change log with the batch (createdFieldsToSave) even when the creating point was then rejected
+           a1 == AckOf(ack, s.batch, s.acc)
+           a2 == [m \in Meas |-> [f \in Fields |-> IF \E i \in 1..Len(s.created) : s.created[i].m = m /\ s.created[i].f = f
+                                                    THEN (CHOOSE c \in {s.created[i] : i \in 1..Len(s.created)} : c.m = m /\ c.f = f).t
+                                                    ELSE a1[m][f]]]
        IN /\ stored' = st2 /\ ack' = a2
           /\ hist' = Append(hist, [a |-> "ack", w |-> w, dropped |-> s.dropped, exp |-> ObsP(mem, st2, a2, touched, idx, idxl, loadErr)])
     /\ wr' = [wr EXCEPT ![w] = IdleW]
@@ -187,7 +200,7 @@ Eng(w) ==
 
 \* Shard.DeleteMeasurement: series data, index, cleanupMeasurement (in-memory delete) ...
 Drop(m) ==
-    /\ Quiescent /\ nops < MaxOps /\ mem[m] # EmptyM
+    /\ Quiescent /\ nops < MaxOps /\ mem[m] # EmptyM /\ ~NoMaint
     /\ \E p \in stored : p.m = m      \* the measurement has series with data (otherwise DeleteMeasurement finds nothing to do)
     /\ stored' = {p \in stored : p.m # m}
     /\ mem' = [mem EXCEPT ![m] = EmptyM]
@@ -207,7 +220,7 @@ DLog ==
 
 \* Engine.Close -> MeasurementFieldSet.Close: WriteToFile iff the change log exists
 Close ==
-    /\ Quiescent /\ nops < MaxOps
+    /\ Quiescent /\ nops < MaxOps /\ ~NoMaint
     /\ up' = FALSE
     /\ mt' = IF idxl # <<>> THEN [pc |-> "c1", m |-> "", next |-> "closed"] ELSE [pc |-> "closed", m |-> "", next |-> ""]
     /\ nops' = nops + 1
@@ -275,7 +288,7 @@ InitInput ==
 
 Init == IF Mode = "input" THEN InitInput ELSE InitHist
 \* (in input mode MaxOps = 0 disables every history action)
-Next == \/ \E w \in Writers : \E b \in Batches(HistPoints) : Begin(w, b)
+Next == \/ \E w \in Writers : \E b \in Batches(ThePoints) : Begin(w, b)
         \/ \E w \in Writers : Field(w)
         \/ \E w \in Writers : Save(w)
         \/ \E w \in Writers : Eng(w)
